@@ -86,7 +86,7 @@ fn dedup_checksum(c: Vec<(String, Vec<u8>)>) -> Vec<(String, Vec<u8>)> {
 /// `typed`: the type is one of the seven known names (Maven gets a namespace).
 pub fn gtuple(typed: bool) -> BoxedStrategy<Tuple> {
     let ty = if typed { select(KNOWN_TYPES).prop_map(str::to_string).boxed() } else { gtype() };
-    (
+    let t = (
         ty,
         prop_oneof![12 => proptest::collection::vec(gsegment(), 0..=3), 1 => proptest::collection::vec(gsegment(), 4..=8)],
         gtext1(),
@@ -118,6 +118,51 @@ pub fn gtuple(typed: bool) -> BoxedStrategy<Tuple> {
                 ns.push("g".to_string());
             }
             Tuple { ty, ns, name, version, quals: dedup_quals(quals), checksum: dedup_checksum(checksum), subpath }
+        })
+        .boxed();
+    // now and then two components are *related*: the same text in two places, or one a prefix of the other
+    (t, 0u8..40)
+        .prop_map(|(mut t, rel)| {
+            let no_slash = |s: &str| s.replace('/', "|");
+            match rel {
+                0 => {
+                    if let Some(s) = t.ns.first().cloned() {
+                        t.name = s;
+                    }
+                },
+                1 => t.version = Some(t.name.clone()),
+                2 => {
+                    if let Some(q) = t.quals.first_mut() {
+                        q.1 = t.name.clone();
+                    }
+                },
+                3 => {
+                    if !t.ns.is_empty() {
+                        t.subpath = t.ns.iter().map(|s| if s == "." || s == ".." { format!("{s}x") } else { s.clone() }).collect();
+                    }
+                },
+                4 => {
+                    if let (Some(v), Some(q)) = (t.version.clone(), t.quals.first_mut()) {
+                        q.1 = v;
+                    }
+                },
+                5 => {
+                    if let Some(s) = t.ns.last().cloned() {
+                        t.name = format!("{s}:{}", t.name);
+                    }
+                },
+                6 => {
+                    let n = no_slash(&t.name);
+                    t.ns = vec![n];
+                },
+                7 => {
+                    if let Some(q) = t.quals.first().cloned() {
+                        t.subpath = vec![no_slash(&q.1)].into_iter().filter(|s| !s.is_empty() && s != "." && s != "..").collect();
+                    }
+                },
+                _ => {},
+            }
+            t
         })
         .boxed()
 }
